@@ -474,4 +474,37 @@ def RevokeOut.positive : RevokeOut → Bool
   | .error => false
   | _ => true
 
+/-! ### The trust anchor's own objects (`TrustAnchorObjects`, api/ta.rs:215-247, 127-161) -/
+
+structure TaObjects where
+  revision    : Revision
+  issued      : List (Nat × PubObj) := []
+  revocations : List Revocation := []
+deriving DecidableEq, Repr, Inhabited
+
+/-- `add_issued`: replaces and revokes the previous certificate for the key. -/
+def TaObjects.addIssued (o : TaObjects) (now key : Nat) (c : PubObj) : TaObjects :=
+  match get? o.issued key with
+  | some prev =>
+    { o with issued := put o.issued key c, revocations := removeExpired now (o.revocations ++ [prev.revoke]) }
+  | none => { o with issued := put o.issued key c }
+
+/-- `revoke_issued`. -/
+def TaObjects.revokeIssued (o : TaObjects) (now key : Nat) : TaObjects × Bool :=
+  match get? o.issued key with
+  | some prev =>
+    ({ o with issued := erase o.issued key, revocations := removeExpired now (o.revocations ++ [prev.revoke]) }, true)
+  | none => (o, false)
+
+/-- `ObjectSetRevision::next` with the operator's `--ta-mft-number-override`. -/
+def Revision.nextWith (r : Revision) (thisUpdate nextUpdate : Nat) (override : Option Nat) : Revision :=
+  { number := match override with
+      | some n => n
+      | none => r.number + 1
+    thisUpdate, nextUpdate }
+
+/-- `TrustAnchorObjects::republish`. -/
+def TaObjects.republish (o : TaObjects) (thisUpdate nextUpdate : Nat) (override : Option Nat) : TaObjects :=
+  { o with revision := o.revision.nextWith thisUpdate nextUpdate override }
+
 end KM.Ca.Pub
